@@ -42,6 +42,10 @@ CAUGHT = {
  "C10d": "C10 `TV_ReaderInput` kind `typed-fault`: typed iterators / readers under every truncation point, fault and cap; values yielded before the error must be those of the complete text (added for it)",
  "C15d": "C15 `TV_AnchorStore` histories (nested call between anchored nodes)", "C19d": "C19 `TV_Robotics` (`wrong-value`, nested unit calls)",
  "C18d": "C18 `TV_PathMap` on the extended family (a map-typed validated field read under DuplicateKeyPolicy::LastWins with repeated keys, added for it): `field-mapped-to-the-wrong-site`",
+ "C01d": "C01 on the anchor-arrangement families (nested anchored containers, anchors in a skipped remainder; added for it): `panic`",
+ "C02d": "C02 `TV_LiveEvents` on stale-alias streams whose second document first defines an anchor of its own (added for it)",
+ "C03d": "C03 `TR_MapAccess` and `TV_MapAccess` under LastWins", "C05d": "C05 `TV_TypedCursor` (short tuples with optional trailing positions)",
+ "C06d": "C06 `TV_Scalars` (negative integers with redundant leading zeros read untyped)",
  "C16a": "C16 `TV_Locations` (`merged-entry-not-attributed-to-its-merge`)", "C17a": "C17 `TV_Snippet` (`ring` family)",
  "C18a": "C18 `TV_PathMap` through the Display channels", "C19a": "C19 `TV_Robotics` (`wrong-value`)", "C20a": "C20 `TV_Emitter`",
 }
